@@ -337,10 +337,16 @@ class Ctx:
         anything else becomes a VIOLATION line with a replay file."""
         sig = '%s/%s' % (self.pid, signature)
         kf = self.findings.get(sig)
+        if kf is None:
+            for e in self.findings.values():
+                if e.get('pattern') and e.get('property') == self.pid and re.fullmatch(e['pattern'], sig):
+                    kf = e
+                    break
         if kf is not None and kf.get('status') == 'known':
-            if sig not in self.known_hits:
-                self.known_hits[sig] = {'count': 0, 'what': kf.get('what', what), 'example': replay_obj}
-            self.known_hits[sig]['count'] += 1
+            key = kf['signature']
+            if key not in self.known_hits:
+                self.known_hits[key] = {'count': 0, 'what': kf.get('what', what), 'example': replay_obj}
+            self.known_hits[key]['count'] += 1
             return False
         for v in self.violations:
             if v['signature'] == sig:
